@@ -124,6 +124,43 @@ def run(ctx):
         chk(ctx, "C02.R2", fn, line, "decode-err-propagated", r2, "every Ok exit is dominated by decode's success edge", "decode's Err does not lead away from every Ok exit (error swallowed)")
     for (fn, b, node, _) in A.other_decodes:
         ctx.finding("C02.R2", fn, "decode-unknown-key", "a jsonwebtoken::decode reachable from the verifier uses a key that comes neither from the resolver nor from the confirmed holder key: %s" % vstr(node.kids[1], 4), line=fn.term(b).get("line"))
+    # ---- R6: the string that is verified is the presented JWT verbatim, and the payload whose `iss` feeds the resolver is that token's payload
+    tok_writes = [w for w in (common.struct_field_writes(fx, COMMON, "unverified_sd_jwt") or []) if not w["fn"].is_macro_generated() and w["how"] in ("assign", "calldest") and w["fn"].name in A.reach]
+    ctx.floor("C02.R6", "assignments of the token that is verified", len(tok_writes), 1)
+    tokens = {}
+    for w in tok_writes:
+        f = w["fn"]
+        kind, det = vmodel.token_verbatim(fx, f, w["value"], A.reach)
+        if kind is None:
+            ctx.finding("C02.R6", f, "token-verbatim", "the string handed to signature verification is not the presented issuer-signed JWT verbatim — %s: a token that differs from what the issuer signed can be accepted" % det, line=w["line"])
+        else:
+            tokens[f.name] = (kind, det)
+            ctx.ok("C02.R6", f, "token-verbatim:%s" % kind, "unverified_sd_jwt is %s" % ("the first `~`-separated part of the input, unmodified" if kind == "compact" else "{protected}.{payload}.{signature} of the parsed JSON object"), line=w["line"])
+    for w in [w for w in (common.struct_field_writes(fx, COMMON, "unverified_input_sd_jwt_payload") or []) if not w["fn"].is_macro_generated() and w["how"] in ("assign", "calldest") and w["fn"].name in A.reach]:
+        f = w["fn"]
+        decs = [x for x in walk(w["value"]) if x.kind == "call" and (x.d["term"].get("resolved") or "") == "utils::jwt_payload_decode"]
+        if not decs or not must(w["value"], lambda x: x in decs):
+            ctx.finding("C02.R6", f, "payload-source", "the payload whose `iss` selects the key is not decoded by jwt_payload_decode from the token: %s" % vstr(w["value"], 4), line=w["line"])
+            continue
+        okp = False
+        why = ""
+        for d in decs:
+            src = d.kids[0]
+            nx = vmodel.first_tilde_part(f, _tok_of_segment(src)) if _tok_of_segment(src) is not None else None
+            if nx is not None:
+                # compact: the SECOND '.'-segment of the same first part
+                seg = _segment_index(f, src)
+                okp = (seg == 1)
+                why = "segment index %r of the first `~` part" % (seg,)
+            else:
+                n = peel(src)
+                if n.kind == "field" and n.d.get("adt") == "SDJWTJson" and n.d.get("name") == "payload":
+                    okp = True
+                    why = "the `payload` member of the parsed JSON object (the middle component of the verified string)"
+        if okp:
+            ctx.ok("C02.R6", f, "payload-source", "the resolver's payload is decoded from %s" % why, line=w["line"])
+        else:
+            ctx.finding("C02.R6", f, "payload-source", "the payload whose `iss` selects the verification key is not the payload part of the token that is verified (%s)" % (why or vstr(w["value"], 4)), line=w["line"])
     # ---- R3
     n_calls = 0
     for name, fn in fx.fns.items():
@@ -218,6 +255,37 @@ def is_payload_read(x):
     if r.kind == "call" and r.d["term"].get("name") == "default":
         return False
     return True
+
+
+def _tok_of_segment(src):
+    """if src is a '.'-segment `next(split(T, "."))` of some string T, return T (value node), else None"""
+    root = common._outcome_root(vmodel._strip_payload(peel(src)))
+    if root.kind == "call" and root.d["term"].get("name") in ("next", "nth") and root.kids:
+        for x in walk(root.kids[0]):
+            if x.kind == "call" and x.d["term"].get("name") == "split" and len(x.kids) == 2 and const_value(x.kids[1]) in (".",):
+                return x.kids[0]
+    return None
+
+
+def _segment_index(fn, src):
+    """how many `next()` calls on the same split iterator precede the one that yields src (0-based index of the segment)"""
+    root = common._outcome_root(vmodel._strip_payload(peel(src)))
+    if root.kind != "call" or root.d["term"].get("name") != "next":
+        return None
+    it = root.kids[0]
+    # the iterator state is a chain of mut(prev by next(..)) nodes
+    n = 0
+    v = it
+    g = 0
+    while g < 10:
+        g += 1
+        v = peel(v)
+        if v.kind == "mut" and v.kids[1].kind == "call" and v.kids[1].d["term"].get("name") == "next":
+            n += 1
+            v = v.kids[0]
+        else:
+            break
+    return n
 
 
 def peel_proj(v):
